@@ -1009,6 +1009,11 @@ template <class D> struct ObjHarness : Harness {
       ++ctx.ops_done;
       ctx.log(ans);
       if (getenv("VERIF_TRACE")) std::cerr << "TRACE " << Plan::op_text(op) << " => " << ans << "\n" << dump_of(*R.pool[(size_t) slots[0]]) << "\n";   // ascii_dump is passive
+      // ---- workload guard: some operations legitimately produce descriptions that are huge for their dimension
+      // (positive_time_elapse_assign: 3804 unminimized generators in dimension 6); every monitor below would then spend
+      // minutes in conversions.  The run ends here, counted; it is neither a violation nor a hang.
+      { bool huge = false; for (int s : uniq) if (R.pool[(size_t) s]->external_memory_in_bytes() > 120000) huge = true;
+        if (huge) { ctx.stat("kit.workload_too_large"); break; } }
       // ---- M-ok
       for (int s : uniq) check_ok(R, op, *R.pool[(size_t) s], s == slots[0] ? (pre[s].dim == 0 ? "receiver|zero-dim" : "receiver") : "argument");
       // ---- M-const
@@ -1048,7 +1053,7 @@ template <class D> struct ObjHarness : Harness {
             ctx.violation(tprop, std::string(mon) + "-answer", klass(op), "answer " + ans + " but " + tans + " on an equal value built differently");
           if (d.flags & F_VAL) {
             D& mine = *R.pool[(size_t) slots[0]]; D& ref = *twin_ops[0];
-            if (!ref.OK()) ctx.violation(tprop, std::string(mon) + "-ok", klass(op), "reference result fails OK()");
+            if (!ref.OK() && !only_inexact_closure(ref)) ctx.violation(tprop, std::string(mon) + "-ok", klass(op), "reference result fails OK()");
             else if (fingerprint(ref, R.probes) != post || !same_value(mine, ref)) {
               ctx.violation(tprop, std::string(mon) + "-value", klass(op), "result differs from the result on an equal value built differently");
               if (getenv("VERIF_TRACE")) std::cerr << "TRACE mismatch: receiver\n" << dump_of(mine) << "\nTRACE mismatch: reference\n" << dump_of(ref) << "\n";
